@@ -3,12 +3,17 @@
    Models
      cnfgen/graphs.py
        bipartite_random_left_regular      gg_left_regular
-       bipartite_random_m_edges           gg_m_edges  (as_is: dense branch raises TypeError on Python >= 3.11;
-                                                       spec: dense branch samples from the list of all pairs)
-       bipartite_random_regular           gg_random_regular  (repair=false: as is, a position whose retries are exhausted
-                                                       while a free pair exists is skipped; repair=true: that free pair is used)
-       bipartite_random                   gg_bip_random      (one recorded comparison `random() <= p` per pair)
-       bipartite_shift                    gg_shift           (returns the caller's pattern as it is after the call)
+       bipartite_random_m_edges           gg_m_edges         (dense branch samples from the list of all pairs;
+                                                              gg_m_edges_as_found, before 434eacc: the population was a
+                                                              generator and random.sample raises TypeError on Python >= 3.11)
+       bipartite_random_regular           gg_random_regular  (a position whose retries are exhausted while a free pair exists uses that
+                                                              pair; gg_random_regular_as_found, before e36db3c: the position is skipped)
+       bipartite_random                   gg_bip_random      (one recorded comparison `random() < p` per pair; before 2bc4e51 `<=`:
+                                                              the comparison is done by the harness, the model is the same)
+       bipartite_shift                    gg_shift           (returns the caller's pattern as it is after the call: untouched;
+                                                              gg_shift_as_found, before 50573cf: sorted in place)
+     The functions without suffix follow the CURRENT code; *_as_found follow the code before the repair named above;
+     both are instances of a *_gen function with a boolean.
        CompleteBipartiteGraph, BipartiteGraph(L,R)           gg_complete_bipartite, gg_empty_bipartite
        Graph.complete_graph / empty_graph                    gg_complete_simple, gg_empty_simple
        dag_pyramid, dag_complete_binary_tree, dag_path       gg_dag_pyramid, gg_dag_tree, gg_dag_path
@@ -132,18 +137,18 @@ Fixpoint gg_me_sparse (L R remaining : Z) (G : iograph) (s : gg_stream) {struct 
          else GGBadOracle
        | _ => GGBadOracle
        end.
-Definition gg_m_edges (spec : bool) (L R m : Z) (s : gg_stream) : gg_res (iograph * gg_stream) :=
+Definition gg_m_edges_gen (repaired : bool) (L R m : Z) (s : gg_stream) : gg_res (iograph * gg_stream) :=
   if (L <? 1) || (R <? 1) || (m <? 0) || (L * R <? m) then GGRaise EValueError
   else gg_bind (gg_lift (gio_new GioBipartite [] L R)) (fun G =>
        if L * R / 3 <? m then
-         (* dense: random.sample(E, m) where E is a generator *)
-         if spec then gg_bind (gg_sample_list (0, 0) (gg_all_pairs L R) m s) (fun es => gg_add_edges G (fst es) (snd es))
+         (* dense: random.sample(E, m) where E is the list of all pairs (as found: a generator, TypeError) *)
+         if repaired then gg_bind (gg_sample_list (0, 0) (gg_all_pairs L R) m s) (fun es => gg_add_edges G (fst es) (snd es))
          else GGRaise ETypeError
        else gg_me_sparse L R m G s).
-Definition gg_m_edges_as_is := gg_m_edges false.
-Definition gg_m_edges_spec := gg_m_edges true.
+Definition gg_m_edges_as_found := gg_m_edges_gen false.
+Definition gg_m_edges := gg_m_edges_gen true.
 
-(* ---------- bipartite_random (glrp): for u: for v: if random() <= p ---------- *)
+(* ---------- bipartite_random (glrp): for u: for v: if random() < p ---------- *)
 Fixpoint gg_bernoulli (cells : list (Z * Z)) (G : iograph) (s : gg_stream) : gg_res (iograph * gg_stream) :=
   match cells with
   | [] => GGOk (G, s)
@@ -173,15 +178,16 @@ Definition gg_tnp (t n : Z) (s : gg_stream) : gg_res (iograph * gg_stream) :=
 (* ---------- bipartite_shift ---------- *)
 Definition gg_shift_edges (N M : Z) (pat : list Z) : list (Z * Z) :=
   flat_map (fun u => map (fun o => (u, 1 + (u - 1 + o) mod M)) pat) (gt_range1 N).
-(* sort_in_place = true: pattern.sort() on the caller's list, as the code does; false: the caller's list is left alone *)
-Definition gg_shift (sort_in_place : bool) (N M : Z) (pat : list Z) : gg_res (iograph * list Z) :=
+(* sort_in_place = false: pattern = sorted(pattern), the caller's list is left alone (current code);
+   true: pattern.sort() on the caller's list (as found) *)
+Definition gg_shift_gen (sort_in_place : bool) (N M : Z) (pat : list Z) : gg_res (iograph * list Z) :=
   if (N <? 1) || (M <? 1) then GGRaise EValueError
   else let sp := gio_sort Z.ltb pat in
        gg_bind (gg_lift (gio_new GioBipartite [] N M)) (fun G =>
        gg_bind (gg_lift (gio_add_edges G (gg_shift_edges N M sp))) (fun G' =>
        GGOk (G', if sort_in_place then sp else pat))).
-Definition gg_shift_as_is := gg_shift true.
-Definition gg_shift_spec := gg_shift false.
+Definition gg_shift_as_found := gg_shift_gen true.
+Definition gg_shift := gg_shift_gen false.
 
 (* ---------- bipartite_random_regular ---------- *)
 Fixpoint gg_set_nth (i : nat) (x : Z) (l : list Z) : list Z :=
@@ -263,13 +269,13 @@ Fixpoint gg_rr_restarts (repair : bool) (restarts : nat) (l r d : Z) (s : gg_str
     | None => gg_rr_restarts repair k l r d (snd res)
     end))
   end.
-Definition gg_random_regular (repair : bool) (restarts : nat) (l r d : Z) (s : gg_stream) : gg_res (iograph * gg_stream) :=
+Definition gg_random_regular_gen (repair : bool) (restarts : nat) (l r d : Z) (s : gg_stream) : gg_res (iograph * gg_stream) :=
   if (l <? 0) || (r <? 0) || (d <? 0) then GGRaise EValueError
   else if r =? 0 then GGZeroDiv
   else if negb ((l * d) mod r =? 0) then GGRaise EValueError
   else gg_rr_restarts repair restarts l r d s.
-Definition gg_random_regular_as_is := gg_random_regular false.
-Definition gg_random_regular_spec := gg_random_regular true.
+Definition gg_random_regular_as_found := gg_random_regular_gen false.
+Definition gg_random_regular := gg_random_regular_gen true.
 
 (* ---------- fixed graphs ---------- *)
 Definition gg_complete_bipartite (L R : Z) : gg_res iograph :=
@@ -407,13 +413,14 @@ Definition gg_split_edges (G : iograph) (k : Z) (s : gg_stream) : gg_res (iograp
   end.
 
 (* ---------- argument guards of graph_build.py: true = no ValueError from the try/assert block ---------- *)
-Definition gg_guard_gnd (args : list Z) : bool :=
+(* as found (before 9fe5425): N >= d *)
+Definition gg_guard_gnd_as_found (args : list Z) : bool :=
   match args with
   | [n; d] => (0 <? n) && (0 <? d) && (d <=? n) && negb ((n * d) mod 2 =? 1)
   | _ => false
   end.
-(* the documented requirement N > d (repaired guard) *)
-Definition gg_guard_gnd_spec (args : list Z) : bool :=
+(* current code: N > d *)
+Definition gg_guard_gnd (args : list Z) : bool :=
   match args with
   | [n; d] => (0 <? n) && (0 <? d) && (d <? n) && negb ((n * d) mod 2 =? 1)
   | _ => false
@@ -438,9 +445,10 @@ Definition gg_guard_complete_simple (args : list Z) : bool :=
   end.
 Definition gg_guard_empty_simple (args : list Z) : bool :=
   match args with [n] => 0 <? n | _ => false end.
-Definition gg_guard_grid (dims : list Z) : bool := forallb (fun d => 0 <? d) dims.
-(* repaired guard: at least one dimension *)
-Definition gg_guard_grid_spec (dims : list Z) : bool := negb (gt_is_nil dims) && gg_guard_grid dims.
+(* as found (before 458cbc2): no arity test *)
+Definition gg_guard_grid_as_found (dims : list Z) : bool := forallb (fun d => 0 <? d) dims.
+(* current code: at least one dimension *)
+Definition gg_guard_grid (dims : list Z) : bool := negb (gt_is_nil dims) && gg_guard_grid_as_found dims.
 Definition gg_guard_glrp (ints : list Z) (p_ok : bool) : bool :=
   match ints with [l; r] => (0 <? l) && (0 <? r) && p_ok | _ => false end.
 Definition gg_guard_glrm (args : list Z) : bool :=
@@ -479,26 +487,28 @@ Definition gg_guard_two_nonneg (args : list Z) : bool :=        (* plantbiclique
   match args with [a; b] => (0 <=? a) && (0 <=? b) | _ => false end.
 
 (* obtain_* of the in-house constructions: guard, then the construction *)
-Definition gg_obtain_glrm (spec : bool) (args : list Z) (s : gg_stream) : gg_res (iograph * gg_stream) :=
+Definition gg_obtain_glrm_gen (repaired : bool) (args : list Z) (s : gg_stream) : gg_res (iograph * gg_stream) :=
   match args with
-  | [l; r; m] => if gg_guard_glrm args then gg_m_edges spec l r m s else GGRaise EValueError
+  | [l; r; m] => if gg_guard_glrm args then gg_m_edges_gen repaired l r m s else GGRaise EValueError
   | _ => GGRaise EValueError
   end.
+Definition gg_obtain_glrm := gg_obtain_glrm_gen true.
 Definition gg_obtain_glrd (args : list Z) (s : gg_stream) : gg_res (iograph * gg_stream) :=
   match args with
   | [l; r; d] => if gg_guard_glrd args then gg_left_regular l r d s else GGRaise EValueError
   | _ => GGRaise EValueError
   end.
-Definition gg_obtain_regular (repair : bool) (restarts : nat) (args : list Z) (s : gg_stream) : gg_res (iograph * gg_stream) :=
+Definition gg_obtain_regular_gen (repair : bool) (restarts : nat) (args : list Z) (s : gg_stream) : gg_res (iograph * gg_stream) :=
   match args with
-  | [l; r; d] => if gg_guard_regular args then gg_random_regular repair restarts l r d s else GGRaise EValueError
+  | [l; r; d] => if gg_guard_regular args then gg_random_regular_gen repair restarts l r d s else GGRaise EValueError
   | _ => GGRaise EValueError
   end.
+Definition gg_obtain_regular := gg_obtain_regular_gen true.
 Definition gg_obtain_shift (values : list Z) : gg_res iograph :=
   match values with
   | L :: R :: pat =>
     if gg_guard_shift values
-    then gg_bind (gg_shift true L R (gio_sort Z.ltb pat)) (fun r => GGOk (fst r))
+    then gg_bind (gg_shift L R (gio_sort Z.ltb pat)) (fun r => GGOk (fst r))
     else GGRaise EValueError
   | _ => GGRaise EValueError
   end.
